@@ -163,6 +163,11 @@ def step (d : DrvState) (line : String) : DrvState × String :=
     | some r =>
       let (s', resp) := handle d.cfg d.s r
       ({ d with s := s' }, showResponse resp)
+  | ["crash"] =>
+    -- a crash loses nothing the model tracks: bindings and registry are persisted by the request
+    -- that changed them, so the next start sees what a clean restart sees
+    let s' := restart d.cfg d.s
+    ({ d with s := s' }, s!"ok dbs={showNames s'.opened}")
   | ["restart"] =>
     let s' := restart d.cfg d.s
     ({ d with s := s' }, s!"ok dbs={showNames s'.opened}")
